@@ -11,7 +11,7 @@ What is proved here about the model (and tied to the code by the correspondence 
   flatten_sound, flatten_complete (search = declarative all-paths rule, for error-free runs under NoDupEmbed),
   ids_depth_monotone, dup_embed_counterexample (NoDupEmbed is necessary), lookup_exact_first, lookup_spec,
   fold_ascii, match_spec, zero_spec, omitZeroStructFields_equiv, omit_spec, unknown_spec.
-Kept as visible full statements (not proved): fallback_spec_full, ids_depth_monotone_full (runs WITH an error).
+fallback_spec is proved as well.  Kept as a visible full statement (not proved): ids_depth_monotone_full (runs WITH an error).
 -/
 import JsonV.Lemmas.FieldsFinish
 import JsonV.Lemmas.FieldsFold
@@ -82,14 +82,14 @@ rule is enumerated or dominated by an enumerated field with the same options at 
 theorem enumerated_iff_reachable (g : Graph) (root : StructId) (herr : (flatten g root).err = none) (hnd : NoDupEmbed g root) :
     (∀ f ∈ (search g root).all, IsCand g root ⟨f.index, f.opts⟩) ∧
     (∀ c, IsCand g root c → ∃ f ∈ (search g root).all, f.opts = c.opts ∧ (f.index = c.index ∨ f.index.length < c.index.length)) := by
-  obtain ⟨P, hF⟩ := final_of_search (g := g) (root := root) herr
+  obtain ⟨P, hF, _⟩ := final_of_search (g := g) (root := root) herr
   exact ⟨fun f hf => hF.enumerated_sound f hf, fun c hc => hF.dominated hnd c hc⟩
 
 /-- SOUNDNESS: in an error-free run on a graph without a struct-embedding type reached twice at its first depth,
 every resolved field is the winner of its name under the declarative all-paths rule. -/
 theorem flatten_sound (g : Graph) (root : StructId) (herr : (flatten g root).err = none) (hnd : NoDupEmbed g root) :
     ∀ f ∈ (flatten g root).flattened, Winner (IsCand g root) ⟨f.index, f.opts⟩ := by
-  obtain ⟨P, hF⟩ := final_of_search (g := g) (root := root) herr
+  obtain ⟨P, hF, _⟩ := final_of_search (g := g) (root := root) herr
   intro f hf
   obtain ⟨f0, ⟨hf0, hw⟩, hi0, ho0⟩ := (flatten_winners g root f.index f.opts).mp ⟨f, hf, rfl, rfl⟩
   rw [← hi0, ← ho0]
@@ -117,7 +117,7 @@ theorem flatten_sound (g : Graph) (root : StructId) (herr : (flatten g root).err
 /-- COMPLETENESS: under the same hypotheses every winner of the declarative rule is resolved. -/
 theorem flatten_complete (g : Graph) (root : StructId) (herr : (flatten g root).err = none) (hnd : NoDupEmbed g root) :
     ∀ c, Winner (IsCand g root) c → ∃ f ∈ (flatten g root).flattened, f.index = c.index ∧ f.opts = c.opts := by
-  obtain ⟨P, hF⟩ := final_of_search (g := g) (root := root) herr
+  obtain ⟨P, hF, _⟩ := final_of_search (g := g) (root := root) herr
   intro c ⟨hc, hw⟩
   obtain ⟨f0, hf0, ho0, hi0⟩ := hF.dominated hnd c hc
   have hi : f0.index = c.index := by
@@ -146,13 +146,107 @@ theorem flatten_complete (g : Graph) (root : StructId) (herr : (flatten g root).
 /-- Discovery order is by non-decreasing depth (error-free run). -/
 theorem ids_depth_monotone (g : Graph) (root : StructId) (herr : (flatten g root).err = none) :
     (search g root).all.Pairwise (fun a b => a.depth ≤ b.depth) := by
-  obtain ⟨P, hF⟩ := final_of_search (g := g) (root := root) herr
+  obtain ⟨P, hF, _⟩ := final_of_search (g := g) (root := root) herr
   exact hF.allSorted
 
-/-- FULL statements still open (validated by the harness only). -/
-def fallback_spec_full : Prop :=
-  ∀ (g : Graph) (root : StructId), (flatten g root).err = none → NoDupEmbed g root →
-    ∀ ix, ((∃ f, (flatten g root).fallback = some f ∧ f.index = ix) ↔ FallbackWinner g root ix)
+/-- The embedded fallback selected by the search is the declarative one: the fallback candidate that is strictly
+shallower than every other fallback candidate (error-free run, `NoDupEmbed`). -/
+theorem fallback_spec (g : Graph) (root : StructId) (herr : (flatten g root).err = none) (hnd : NoDupEmbed g root) :
+    ∀ ix, ((∃ f, (flatten g root).fallback = some f ∧ f.index = ix) ↔ FallbackWinner g root ix) := by
+  obtain ⟨P, hF, hB⟩ := final_of_search (g := g) (root := root) herr
+  have hfb : (flatten g root).fallback =
+      match (search g root).fbs with
+      | [] => none
+      | [f] => some f
+      | f0 :: f1 :: _ => if f0.depth != f1.depth then some f0 else none := rfl
+  have hA : ∀ f ∈ (search g root).fbs, IsFallback g root f.index := fun f hf => hF.fb_sound hB f hf
+  have hD : ∀ jx, IsFallback g root jx → ∃ f ∈ (search g root).fbs, f.index = jx ∨ f.index.length < jx.length :=
+    fun jx hj => hF.fb_dominated hnd hB jx hj
+  have hND := hB.fbND
+  have hS := hB.fbSorted
+  rw [hfb]
+  generalize (search g root).fbs = fbs at hA hD hND hS
+  intro ix
+  constructor
+  · rintro ⟨f, hsel, rfl⟩
+    match fbs, hsel, hA, hD, hND, hS with
+    | [a], hsel, hA, hD, _, _ =>
+      simp only [Option.some.injEq] at hsel
+      subst hsel
+      refine ⟨hA a (List.mem_singleton.mpr rfl), ?_⟩
+      intro jx hj hne
+      obtain ⟨f', hf', h'⟩ := hD jx hj
+      rw [List.mem_singleton.mp hf'] at h'
+      rcases h' with h' | h'
+      · exact absurd h'.symm hne
+      · exact h'
+    | a :: b :: t, hsel, hA, hD, _, hS =>
+      by_cases hdep : (a.depth != b.depth) = true
+      · simp only [hdep, if_true, Option.some.injEq] at hsel
+        subst hsel
+        refine ⟨hA a (List.mem_cons_self ..), ?_⟩
+        have hS1 := List.pairwise_cons.mp hS
+        have hS2 := List.pairwise_cons.mp hS1.2
+        have hab : a.depth < b.depth := by
+          have h1 := hS1.1 b (List.mem_cons_self ..)
+          have h2 : a.depth ≠ b.depth := by simpa using hdep
+          omega
+        have hrest : ∀ x ∈ b :: t, a.depth < x.depth := by
+          intro x hx
+          rcases List.mem_cons.mp hx with rfl | hx
+          · exact hab
+          · have := hS2.1 x hx; omega
+        intro jx hj hne
+        obtain ⟨f', hf', h'⟩ := hD jx hj
+        rcases List.mem_cons.mp hf' with rfl | hf'
+        · rcases h' with h' | h'
+          · exact absurd h'.symm hne
+          · exact h'
+        · have := hrest f' hf'
+          unfold RField.depth at this
+          rcases h' with h' | h'
+          · rw [← h']; exact this
+          · omega
+      · simp only [hdep, Bool.false_eq_true, if_false] at hsel
+        cases hsel
+  · rintro ⟨hix, hw⟩
+    obtain ⟨f, hf, hfi⟩ := hD ix hix
+    have hfi : f.index = ix := by
+      rcases hfi with hfi | hfi
+      · exact hfi
+      · exfalso
+        have := hw f.index (hA f hf) (by intro h; rw [h] at hfi; exact Nat.lt_irrefl _ hfi)
+        omega
+    have hother : ∀ x ∈ fbs, x ≠ f → f.depth < x.depth := by
+      intro x hx hne
+      have hxi : x.index ≠ ix := by
+        intro h
+        exact hne (nodup_map_inj (·.index) hND hx hf (h.trans hfi.symm))
+      have := hw x.index (hA x hx) hxi
+      unfold RField.depth
+      rw [hfi]; exact this
+    match fbs, hf, hother, hND, hS with
+    | [a], hf, _, _, _ =>
+      rw [List.mem_singleton.mp hf] at hfi
+      exact ⟨a, rfl, hfi⟩
+    | a :: b :: t, hf, hother, hND, hS =>
+      have hS1 := List.pairwise_cons.mp hS
+      have haf : a = f := by
+        by_cases h : a = f
+        · exact h
+        · exfalso
+          have h1 := hother a (List.mem_cons_self ..) h
+          rcases List.mem_cons.mp hf with rfl | hf'
+          · exact h rfl
+          · have := hS1.1 f hf'; omega
+      subst haf
+      have hba : b ≠ a := by
+        intro h
+        rw [List.map_cons, List.nodup_cons] at hND
+        exact hND.1 (List.mem_map.mpr ⟨b, List.mem_cons_self .., by rw [h]⟩)
+      have hlt := hother b (List.mem_cons_of_mem _ (List.mem_cons_self ..)) hba
+      have hdep : (a.depth != b.depth) = true := by simp; omega
+      exact ⟨a, by simp [hdep], hfi⟩
 
 /-- Discovery order is by non-decreasing depth, also for runs that record an error. -/
 def ids_depth_monotone_full : Prop :=
